@@ -1,6 +1,7 @@
 package turtle
 
 import (
+	"errors"
 	"github.com/dpb587/cursorio-go/cursorio"
 	"github.com/dpb587/cursorio-go/x/cursorioutil"
 	"github.com/dpb587/rdfkit-go/encoding"
@@ -173,6 +174,10 @@ func reader_scan_Object(r *Decoder, ectx evaluationContext, r0 cursorio.DecodedR
 			default:
 				r.buf.BacktrackRunes(r0)
 			}
+		}
+
+		if literal.Tag == nil && (literal.Datatype == rdfiri.LangString_Datatype || literal.Datatype == "http://www.w3.org/1999/02/22-rdf-syntax-ns#dirLangString") {
+			return readerStack{}, grammar.R_object.Err(grammar.R_literal.Err(grammar.R_RDFLiteral.ErrWithTextOffsetRange(errors.New("a literal of a language-tagged datatype requires a language tag"), token.Offsets)))
 		}
 
 		return r.emit(statement{
